@@ -30,12 +30,31 @@ Definition sess_at (c : cfg) (s : dstate) (m : dmsg) : sess := ss (parse_effect 
 (* the subnet the client belongs to at that moment: netfilter when captured, home otherwise *)
 Definition client_net (c : cfg) (s : dstate) (m : dmsg) : bool := sess_captured (sess_at c s m) (m_chaddr m).
 
+(* the two subnets as the CONFIGURATION defines them (NIC home LAN; Config.NetfilterIP), whatever the
+   handler holds internally: b = false home, b = true netfilter *)
+Definition want_bits (c : cfg) (b : bool) : N := if b then c_nfbits c else c_homebits c.
+Definition want_lan (c : cfg) (b : bool) : ip :=
+  if b then pnet (c_nfip c) (c_nfbits c) else pnet (c_homeip c) (c_homebits c).
+Definition want_bcast (c : cfg) (b : bool) : ip := want_lan c b + psize (want_bits c b) - 1.
+Definition want_contains (c : cfg) (b : bool) (x : ip) : bool := pcontains (want_lan c b) (want_bits c b) x.
+
+(* the handler's subnets are those of its configuration (true for a handler built without a lease
+   file; for one built on a lease file it is theorem C12_stale_file_config) *)
+Definition sub_ok (c : cfg) : Prop :=
+  let f := c_sub c in
+  pnet (f_addr1 f) (f_bits1 f) = pnet (c_homeip c) (c_homebits c) /\ f_bits1 f = c_homebits c /\
+  f_gw1 f = c_routerip c /\ f_dns1 f = c_dns c /\ f_srv1 f = c_hostip c /\
+  pnet (f_addr2 f) (f_bits2 f) = pnet (c_nfip c) (c_nfbits c) /\ f_bits2 f = c_nfbits c /\
+  f_gw2 f = c_nfip c /\ f_dns2 f = cloudflare_family1 /\ f_srv2 f = c_hostip c.
+(* ... and the netfilter gateway handed to Config.NetfilterIP is the host's own address *)
+Definition cfg_ok (c : cfg) : Prop := sub_ok c /\ c_nfip c = c_hostip c.
+
 (* C11, second sentence: addresses that must never be offered or acknowledged to this client *)
 Definition res_own (c : cfg) (x : ip) : bool := x =? c_hostip c.
 Definition res_router (c : cfg) (x : ip) : bool := x =? c_routerip c.
-Definition res_network (c : cfg) (b : bool) (x : ip) : bool := x =? n_lan c b.
-Definition res_broadcast (c : cfg) (b : bool) (x : ip) : bool := x =? n_bcast c b.
-Definition res_outside (c : cfg) (b : bool) (x : ip) : bool := negb (n_contains c b x).
+Definition res_network (c : cfg) (b : bool) (x : ip) : bool := x =? want_lan c b.
+Definition res_broadcast (c : cfg) (b : bool) (x : ip) : bool := x =? want_bcast c b.
+Definition res_outside (c : cfg) (b : bool) (x : ip) : bool := negb (want_contains c b x).
 Definition res_tracked_other (se : sess) (mc : mac) (x : ip) : bool :=
   match sess_find se x with Some m' => negb (m' =? mc) | None => false end.
 Definition reserved (c : cfg) (se : sess) (b : bool) (mc : mac) (x : ip) : bool :=
@@ -76,10 +95,20 @@ Definition want_dns (c : cfg) (b : bool) : ip := if b then cloudflare_family1 el
 Definition c12_subnet (c : cfg) (s : dstate) (m : dmsg) (r : reply) : bool :=
   negb (is_lease_reply r) ||
   (let b := client_net c s m in
-   n_contains c b (r_yi r)
+   want_contains c b (r_yi r)
    && obeqb (opt 3 r) (ipb (want_router c b))
    && obeqb (opt 6 r) (ipb (want_dns c b))
-   && obeqb (opt 1 r) (ipb (pmask (n_bits c b)))
+   && obeqb (opt 1 r) (ipb (pmask (want_bits c b)))
+   && obeqb (opt 54 r) (ipb (c_hostip c))
+   && obeqb (opt 51 r) (ipb 14400)
+   && (r_xid r =? m_xid m) && (r_chaddr r =? m_chaddr m)).
+(* the configuration part of c12_subnet alone (everything but the address) *)
+Definition c12_config (c : cfg) (s : dstate) (m : dmsg) (r : reply) : bool :=
+  negb (is_lease_reply r) ||
+  (let b := client_net c s m in
+   obeqb (opt 3 r) (ipb (want_router c b))
+   && obeqb (opt 6 r) (ipb (want_dns c b))
+   && obeqb (opt 1 r) (ipb (pmask (want_bits c b)))
    && obeqb (opt 54 r) (ipb (c_hostip c))
    && obeqb (opt 51 r) (ipb 14400)
    && (r_xid r =? m_xid m) && (r_chaddr r =? m_chaddr m)).
@@ -121,7 +150,7 @@ Definition lease_mismatch (s : dstate) (m : dmsg) : bool :=
   | None => false
   end.
 Definition outside_subnet (c : cfg) (s : dstate) (m : dmsg) : bool :=
-  negb (n_contains c (client_net c s m) (asked m)).
+  negb (want_contains c (client_net c s m) (asked m)).
 (* the client's lease is expired: its expiry lies before the instant the request is handled,
    whether or not MinuteTicker has freed it yet *)
 Definition lease_expired (s : dstate) (m : dmsg) (now : Z) : bool :=
